@@ -226,6 +226,7 @@ impl ReadHalf {
         match ready!(self.rx.recv.poll_recv(cx)) {
             Some(seg) => {
                 tracing::trace!(target: TRACING_TARGET, src = ?self.pair.remote, dst = ?self.pair.local, protocol = %seg, "Recv");
+                self.drain_buffered();
 
                 match seg {
                     SequencedSegment::Data(bytes) => {
@@ -244,6 +245,13 @@ impl ReadHalf {
                 "Connection reset",
             ))),
         }
+    }
+
+    /// A slot of the receive channel was freed: let the host move segments
+    /// that found the channel full (a FIN behind `tcp_capacity` unread data
+    /// segments) out of its reorder buffer.
+    fn drain_buffered(&self) {
+        World::current_if_set(|world| world.current_host_mut().tcp.drain_buffered(*self.pair));
     }
 
     /// Put bytes in `buf` based on the minimum of `avail` and its remaining
@@ -283,6 +291,7 @@ impl ReadHalf {
         match ready!(self.rx.recv.poll_recv(cx)) {
             Some(seg) => {
                 tracing::trace!(target: TRACING_TARGET, src = ?self.pair.remote, dst = ?self.pair.local, protocol = %seg, "Peek");
+                self.drain_buffered();
 
                 match seg {
                     SequencedSegment::Data(bytes) => {
